@@ -481,6 +481,78 @@ def encoding_agreement(ctx, clause, kinds=('text', 'json')):
     return n_ob
 
 
+def _always_assigns(ctx, func, attr, depth=0):
+    """Every normal path through func assigns self.<attr> (directly, also as an element of a tuple target, or through a
+    callee on self that always does)."""
+    g = cfg_of(func)
+    nodes = set()
+    for st in own_nodes(func.node):
+        if isinstance(st, ast.Assign):
+            for t in st.targets:
+                for x in ([t] if not isinstance(t, (ast.Tuple, ast.List)) else t.elts):
+                    if dotted(x) == f'self.{attr}':
+                        nodes.add(g.node_for(st))
+    if depth < 3:
+        for node, cal in ctx.E.callees(func):
+            if isinstance(node, ast.Call) and cal.cls is func.cls and cal is not func and \
+                    isinstance(node.func, ast.Attribute) and dotted(node.func.value) == 'self' and \
+                    _always_assigns(ctx, cal, attr, depth + 1):
+                nodes.add(g.node_for(node))
+    return bool(nodes) and not g.can_reach(g.entry, g.exit, avoid=nodes, skip_labels=('exc',))
+
+
+def _default_mode_from_refreshed_attrs(ctx, opener):
+    """Accepted alternative: with accessmode None the opener takes its mode strings from instance attributes that the
+    accessmode setter re-derives on every path (so they always follow the handle's current mode) and that nothing else
+    assigns except the constructor."""
+    from ..pathcond import reach_under, inline as _inl
+    from ._trunc import folder
+    cls = opener.cls
+    setter = cls.setters.get('accessmode')
+    if setter is None:
+        return False
+    g = cfg_of(opener)
+    may = reach_under(opener, folder({'accessmode': None}, opener))
+    used = set()
+    for n in own_nodes(opener.node):
+        if isinstance(n, ast.Call) and dotted(n.func) in ('open', 'io.open', 'np.memmap', 'numpy.memmap'):
+            m = get_arg(n, 1, 'mode')
+            if m is None:
+                continue
+            for x in ast.walk(_inl(opener, m)):
+                if isinstance(x, ast.Name):
+                    for v, st in defs_of(opener.node, x.id):
+                        if g.node_for(st) in may:
+                            used |= {dotted(y) for y in ast.walk(v) if isinstance(y, ast.Attribute) and dotted(y)}
+                elif isinstance(x, ast.Attribute) and dotted(x):
+                    used.add(dotted(x))
+    attrs = {u.split('.', 1)[1] for u in used if u and u.startswith('self.') and u.count('.') == 1} - {'_accessmode', 'accessmode',
+                                                                                                        '_datapath', '_arrayinfo'}
+    if not attrs:
+        return False
+    for a in attrs:
+        if not _always_assigns(ctx, setter, a):
+            return False
+        writers = {f_ for f_, v, st in cls.attr_exprs.get(a, [])}
+        for f_ in cls.all_funcs():
+            for st in own_nodes(f_.node):
+                if isinstance(st, ast.Assign) and any(dotted(x) == f'self.{a}' for t in st.targets
+                                                     for x in ([t] if not isinstance(t, (ast.Tuple, ast.List)) else t.elts)):
+                    writers.add(f_)
+        init = cls.methods.get('__init__')
+        reach_ok = True
+        for w in writers:
+            if w is setter or w is init:
+                continue
+            # a helper that assigns it must only be reachable from the constructor and the setter
+            callers = [c_ for c_ in cls.all_funcs() if any(cal is w for _, cal in ctx.E.callees(c_))]
+            if any(c_ not in (setter, init) for c_ in callers):
+                reach_ok = False
+        if not reach_ok:
+            return False
+    return True
+
+
 def opener_default_mode(ctx, clause, opener):
     """The opener uses the handle's own (current) mode when none is requested: the `accessmode` parameter defaults
     to None and, exactly in that case, is bound to self._accessmode at call time — not to something cached when the
@@ -503,6 +575,8 @@ def opener_default_mode(ctx, clause, opener):
             when_given = runs_under(opener, st, folder({'accessmode': 'r+'}, opener))
             if when_none is not False and (when_given is False or isinstance(v, ast.IfExp)):
                 hit = True
+    if ok and not hit:
+        hit = _default_mode_from_refreshed_attrs(ctx, opener)
     ctx.decide(ok and hit, 'R-FLOW', clause, opener, None, 'opener-default-mode',
                'the opener uses the handle\'s own current mode when none is requested',
                detail='default mode of the opener is not the handle\'s current mode (e.g. mode strings cached at '
